@@ -1556,7 +1556,9 @@ where
                                 });
                             }
 
-                            obj.put(DataElement::new(*tag, vr, DataSetSequence::empty()));
+                            // attributes unknown to the dictionary can be sequences too,
+                            // but a data set sequence always has the VR SQ
+                            obj.put(DataElement::new(*tag, VR::SQ, DataSetSequence::empty()));
                         } else {
                             return Err(ApplyError::MissingSequence {
                                 selector: selector.clone(),
